@@ -72,7 +72,7 @@ struct Tier {
 
 fn tier(name: &str) -> Tier {
     match name {
-        "thorough" => Tier { runs: 6_000_000, sweep8_all_pairs: true, sweep16_all_sizes: true, sweep16: 60_000, sweep24: 320, sweep32: 10, determinism_runs: 2000 },
+        "thorough" => Tier { runs: 6_000_000, sweep8_all_pairs: true, sweep16_all_sizes: true, sweep16: 20_000, sweep24: 320, sweep32: 8, determinism_runs: 2000 },
         "smoke" => Tier { runs: 4_000, sweep8_all_pairs: false, sweep16_all_sizes: false, sweep16: 40, sweep24: 2, sweep32: 0, determinism_runs: 32 },
         _ => Tier { runs: 150_000, sweep8_all_pairs: true, sweep16_all_sizes: false, sweep16: 2_000, sweep24: 16, sweep32: 0, determinism_runs: 64 },
     }
